@@ -298,6 +298,7 @@ type BlockOpts struct {
 	Fat          int    // >0: the coinbase gets an extra zero-value output with a script of this many bytes
 	FatN         int    // that many more of them
 	HugeFanout   bool   // the block carries one transaction with 65537+ outputs
+	DistinctSrc  int    // > 0: the block spends from exactly that many different confirmed transactions (if the view has them), one output of each
 	PreferHeight uint32 // != 0: the first transaction spends an output created (by a transaction, not a coinbase) at this height, if the view has one
 }
 
@@ -349,12 +350,30 @@ func (m *Miner) Build(parent *Node, o BlockOpts) (b *Block, ok bool) {
 		}
 		return ins, av
 	}
+	srcSeen := map[[32]byte]bool{}
 	for n := 0; n < ntx; n++ {
 		av := m.Spendables(view, height, used)
+		if o.DistinctSrc > 0 {
+			if len(srcSeen) >= o.DistinctSrc {
+				break
+			}
+			var one []CoinRef // one output of every confirmed transaction not spent from yet
+			last := [32]byte{}
+			for _, c := range av {
+				if c.Coin.Height < height && !srcSeen[c.Op.Hash] && (len(one) == 0 || c.Op.Hash != last) {
+					one = append(one, c)
+					last = c.Op.Hash
+				}
+			}
+			av = one
+		}
 		if len(av) == 0 {
 			break
 		}
 		k := 1 + m.R.Pick(60, 25, 10, 5)
+		if o.DistinctSrc > 0 && k > o.DistinctSrc-len(srcSeen) {
+			k = o.DistinctSrc - len(srcSeen)
+		}
 		if n == 0 && (o.Viol == "sigops-over" || o.Viol == "ok-sigops-exact") && m.R.Chance(0.6) {
 			// several P2SH-wrapped segwit inputs: their sigops are found neither in the output script nor in
 			// the redeem script but in the witness (cost 1 each, not scaled)
@@ -381,6 +400,9 @@ func (m *Miner) Build(parent *Node, o BlockOpts) (b *Block, ok bool) {
 			}
 		}
 		ins, _ := pick(av, k)
+		for _, c := range ins {
+			srcSeen[c.Op.Hash] = true
+		}
 		corruptIdx, corrupt := -1, COk
 		nOut := 1 + m.R.Pick(40, 30, 15, 10, 5)
 		if n == violAt {
@@ -824,7 +846,7 @@ func (m *Miner) Build(parent *Node, o BlockOpts) (b *Block, ok bool) {
 var C05Violations = []string{"high-hash", "bits-wrong", "bits-negative", "bits-zero", "bits-overflow", "time-mtp", "time-future", "version-old",
 	"cb-script-short", "cb-script-long", "bad-cb-height", "second-coinbase", "no-coinbase", "non-final-height", "non-final-time",
 	"merkle-dup", "bad-merkle", "witness-commit-wrong", "witness-missing-commit", "witness-nonce-size", "short-block", "empty-vout", "null-prevout",
-	"witness-commit-two", "weight-over", "txcount-huge", "version-old", "forged-parent", "witness-superfluous", "witness-superfluous", "tail-cut", "noncanonical-size", "noncanonical-size"}
+	"witness-commit-two", "weight-over", "txcount-huge", "version-old", "forged-parent", "empty-vout", "empty-vout", "witness-superfluous", "witness-superfluous", "tail-cut", "noncanonical-size", "noncanonical-size", "cb-extra-input"}
 
 // C05Boundary are mutations that keep the block VALID while sitting on a limit (MutateC05 kinds starting with "ok-").
 var C05Boundary = []string{"ok-witness-commit-two", "ok-weight-exact"}
@@ -960,6 +982,24 @@ func (m *Miner) MutateC05(parent *Node, b *Block, kind string, now int64) bool {
 		b.Txs = append(b.Txs, cb2)
 		recommit()
 		regrind()
+	case "cb-extra-input":
+		// the first transaction starts with the null reference but has a further input (a made-up one, or the
+		// previous block's reward): it is no coinbase, so the block has none
+		in := TxIn{Prev: OutPoint{N: uint32(m.R.Intn(3))}, Seq: 0xffffffff}
+		if parent.Blk != nil && len(parent.Blk.Txs) > 0 && m.R.Chance(0.5) {
+			in.Prev = OutPoint{Hash: parent.Blk.Txs[0].ID(), N: 0}
+		} else {
+			for i := range in.Prev.Hash {
+				in.Prev.Hash[i] = byte(m.R.Intn(256))
+			}
+		}
+		b.Txs[0].In = append(b.Txs[0].In, in)
+		if b.Txs[0].Valid != nil {
+			b.Txs[0].Valid = append(b.Txs[0].Valid, true)
+		}
+		b.Txs[0].Touch()
+		recommit()
+		regrind()
 	case "no-coinbase":
 		if len(b.Txs) < 2 {
 			return false
@@ -984,6 +1024,19 @@ func (m *Miner) MutateC05(parent *Node, b *Block, kind string, now int64) bool {
 			recommit()
 			regrind()
 			return true
+		}
+		if m.R.Chance(0.5) {
+			// ... and the coinbase as well: two transactions of the block fail the same check
+			cb := b.Txs[0]
+			cb.Lock = height + uint32(m.R.Intn(2))
+			if kind != "non-final-height" {
+				cb.Lock = b.H.Time + uint32(m.R.Intn(2))
+				if p.CSVHeight != 0 && height >= p.CSVHeight {
+					cb.Lock = parent.MTP() + uint32(m.R.Intn(2))
+				}
+			}
+			cb.In[0].Seq = 0xfffffffe
+			cb.Touch()
 		}
 		t := b.Txs[1+m.R.Intn(len(b.Txs)-1)]
 		if kind == "non-final-height" {
@@ -1263,6 +1316,13 @@ func (m *Miner) MutateC05(parent *Node, b *Block, kind string, now int64) bool {
 		t := b.Txs[len(b.Txs)-1]
 		t.Out = nil
 		t.Touch()
+		if m.R.Chance(0.5) {
+			// ... every transaction of the block but the first: the (parallel) context-free checks fail several times
+			for _, x := range b.Txs[1:] {
+				x.Out = nil
+				x.Touch()
+			}
+		}
 		recommit()
 		regrind()
 	case "null-prevout":
